@@ -259,7 +259,7 @@ func (x *runner) generated() {
 	}
 	lap("sched")
 	if os.Getenv("C15_TIMING") != "" {
-		fmt.Fprintf(os.Stderr, "sched iq %v message %v syncs %d %v\n", schedDur[0], schedDur[1], syncN, syncDur)
+		fmt.Fprintf(os.Stderr, "timing sched iq %v message %v\n", schedDur[0], schedDur[1])
 	}
 	x.dropRig()
 	for i := 0; i < nPipe; i++ {
